@@ -954,7 +954,7 @@ fn gen_bound(rng: &mut Rng, d: u32) -> Option<Box<G>> {
 /// productions that are never folded but sit between constants: item/attribute access, slices,
 /// conditional expressions, filters and tests
 fn gen_unfolded(rng: &mut Rng, d: u32) -> G {
-    if rng.chance(1, 30) {
+    if rng.chance(1, 70) {
         // splat arguments switch `compile_call_args` to its list/merge paths (and static keyword arguments off)
         let pos = (0..rng.below(2)).map(|_| gen_lit(rng)).collect();
         let star = if rng.chance(2, 3) { G::List((0..rng.below(3)).map(|_| gen_lit(rng)).collect()) } else { gen_container(rng, d) };
